@@ -10,7 +10,10 @@ package fifo
 //@ requires g != nil
 //@ modifies g.reqmods, elems(martian.RequestModifier)
 //@ ensures len(g.reqmods) == old(len(g.reqmods)) + 1 && g.reqmods[len(g.reqmods) - 1] == reqmod
+//@ ensures (base(g.reqmods) == old(base(g.reqmods)) && old(cap(g.reqmods)) > 0) || !old(allocated(now(base(g.reqmods))))
 //@ ensures forall i int :: 0 <= i && i < old(len(g.reqmods)) ==> g.reqmods[i] == old(g.reqmods[i])
+// (frame on the element heap: no other modifier list that existed before is touched)
+//@ ensures forall s []martian.RequestModifier, a int {at(s, a)} :: old(allocated(base(s))) && base(s) != old(base(g.reqmods)) ==> at(s, a) == oldat(s, a)
 
 //@ func (*Group).AddResponseModifier
 //@ property C18 C04
@@ -22,4 +25,4 @@ package fifo
 //@ func NewGroup
 //@ property C18 C04
 //@ pure
-//@ ensures result != nil && fresh(result) && len(result.reqmods) == 0 && len(result.resmods) == 0 && !result.aggregateErrors
+//@ ensures result != nil && fresh(result) && len(result.reqmods) == 0 && len(result.resmods) == 0 && cap(result.reqmods) == 0 && cap(result.resmods) == 0 && !result.aggregateErrors
